@@ -99,6 +99,12 @@ type runResult struct {
 func run(dir string, timeout time.Duration, extraEnv []string, name string, args ...string) runResult {
 	ctx, cancel := context.WithTimeout(context.Background(), timeout)
 	defer cancel()
+	if name == goderiveBin && goderiveBin != "" {
+		// the sandbox has no memory limit of its own: a runaway generator must
+		// fail (fatal error: out of memory) instead of taking the machine down
+		args = append([]string{"-c", `ulimit -v 6000000; exec "$0" "$@"`, name}, args...)
+		name = "/bin/sh"
+	}
 	cmd := exec.CommandContext(ctx, name, args...)
 	cmd.Dir = dir
 	cmd.Env = goEnv(extraEnv...)
